@@ -70,11 +70,32 @@ PROPS = {
         explanation='theorems: for every item and every coherent environment (one key per field, lawful field impls) the accepted impls agree: == iff partial_cmp==Some(Equal) iff cmp==Equal, partial_cmp==Some(cmp), == implies equal hasher feeds, cmp flips under swap, == is an equivalence; refusal of everything else is C05.trait_error_iff_misuse. cmp transitivity (<=) is not proved (partial): it is covered by the model-free law checks of L2 only. L2: compiled programs with one consistent key, all pairs and triples of values, laws checked on the observed results without any model',
         level_text='Lean 4 theorems over the model (coherence of all accepted combinations, by case analysis over the attribute record and induction over field lists) + exhaustive L1 on the 3136-combination matrix + model-free law checks on compiled programs; transitivity of cmp is checked (L2) but not proved',
     ),
+    'C03': dict(
+        theorems=[(CMP + 'C04', ['DX.absent_contrib', 'DX.default_fields_exact', 'DX.clone_struct_default_where',
+                                 'DX.clone_struct_where', 'DX.clone_enum_where', 'DX.copy_enum_where', 'DX.copy_struct_where'])],
+        l1=[('bounds', 6000, 200000), ('all', 3000, 100000), ('ops', 2000, 50000), ('cmpN', 2000, 50000)],
+        labels=r'^e\d+:',
+        level_text='partial: Lean theorems that the where-clause threaded by the builders is the declarative walk and that with no bound(..) it consists of the declared predicates plus exactly the used field types mentioning a parameter (proved for Clone and Copy; the other traits are tied by L1 only so far); L1 compares every where-clause token for token',
+    ),
+    'C04': dict(
+        theorems=[(CMP + 'C04', ['DX.clone_struct_where', 'DX.clone_enum_where', 'DX.copy_enum_where', 'DX.copy_struct_where',
+                                 'DX.declared_where_retained', 'DX.empty_bound_stops', 'DX.absent_level_skipped',
+                                 'DX.dots_level_continues', 'DX.plain_level_stops', 'DX.stop_is_local']),
+                  ('DeriveExModel.Lemmas.Bounds', ['DX.walk_true', 'DX.walk_append', 'DX.HAttrs.pushBoundsToRaw_walk',
+                                                   'DX.Entry.pushBoundsToWith_walk', 'DX.CmpHs.pushBounds_walk',
+                                                   'DX.FieldE.pushBoundsTo_contrib'])],
+        l1=[('bounds', 8000, 300000), ('all', 3000, 100000)],
+        labels=r'^e\d+:',
+        level_text='Lean theorems: the flag-threading of the builders equals the documented walk over chains of levels (reached levels contribute verbatim; continue iff absent or `..`; stops are local; declared where-clause retained), with the per-trait level tables proved for Clone and Copy and the helper-attribute level (most specific first) for the comparison traits; L1 compares every where-clause token for token on assignments of all bound(..) shapes to all levels',
+    ),
     'C05': dict(
         theorems=[(CMP + 'C05', ['DX.field_error_iff_misuse', 'DX.trait_error_iff_misuse', 'DX.valid_use_accepted',
                                  'DX.misplaced_iff', 'DX.struct_entries_isolated'])],
         l1=[('cmp1', 'all', 'all'), ('cmp1all', 20000, 'all'), ('cmpWild', 3000, 100000)],
-        labels=r':(PartialEq|PartialOrd|Ord|Eq|Hash)$|^err$|^item$',
+        labels=r':(PartialEq|PartialOrd|Ord|Eq|Hash)$|^err$',
+        kinds=('class', 'count', 'panic', 'nondet', 'parse'),
+        l1_is_concrete=('class',),
+        l1_concrete_text='this attribute combination is accepted / rejected differently from the documented rule (docMisuse, proved equal to the model)',
         explanation='theorems: a trait is refused iff some field is misused for it (M1-M3), misplaced arguments are refused, entries are isolated; L1: accept/reject class of every segment over the exhaustive matrix',
     ),
     'C06': dict(
@@ -128,6 +149,8 @@ PROPS.update({
                                  'DX.underived_helper_kept'])],
         l1=[('strip', 5000, 200000), ('wild', 2000, 50000), ('impl', 1500, 30000), ('cmp1all', 10000, 'all')],
         labels=r'^item$',
+        l1_is_concrete=('tokens', 'class'),
+        l1_concrete_text='the re-emitted item differs from the input minus the documented derive_ex-owned attributes (the model, proved equal to docStrip*)',
     ),
     'C15': dict(
         theorems=[(CMP + 'C15', ['DX.entry_equiv_struct', 'DX.entry_equiv_enum', 'DX.entry_equiv_segments_struct',
@@ -140,6 +163,7 @@ PROPS.update({
                                  'DX.core_error_single', 'DX.deterministic'])],
         l1=[('wild', 5000, 200000), ('strip', 2000, 50000), ('impl', 2000, 50000), ('cmpWild', 2000, 50000)],
         labels=r'.',
+        kinds=('panic', 'nondet', 'parse', 'roundtrip'),
         level_text='partial: totality and determinism are proved of the Lean model (total functions, accepted by the termination checker) and transferred to the implementation only through the L1 runs (catch_unwind around every expansion, every case expanded twice and compared, output re-parsed as items) and the mutation fuzzer; a Lean model cannot exhibit a Rust panic on inputs outside its input language',
     ),
     'C18': dict(
@@ -152,6 +176,8 @@ PROPS.update({
                                  'DX.dump_of_error', 'DX.kinds_ignore_dump', 'DX.dump_impl', 'DX.fwd_ignores_dump'])],
         l1=[('dump', 5000, 150000), ('impl', 2000, 40000)],
         labels=r'.',
+        l1_is_concrete=('tokens', 'class'),
+        l1_concrete_text='with `dump` the expansion is not (item, error carrying exactly the code that is generated without dump) as the model - proved to satisfy dump_payload - prescribes',
     ),
 })
 
